@@ -32,7 +32,7 @@
 (*            [kind |-> "mac", addr (the address the MAC's lease is for)] |*)
 (*            [kind |-> "cid", cid]                                        *)
 (*   config   [ignQ, ignS (sets of patterns), client, flagQ, flagS,        *)
-(*             anon, refuseAny]                                            *)
+(*             anon, qlogOn, statsOn, refuseAny]                           *)
 (*   query    [name, addr, cid, qt]                                        *)
 (***************************************************************************)
 EXTENDS Sequences, Naturals, FiniteSets
@@ -76,7 +76,9 @@ IdentsBy(P, a, cid) ==
 
 Idents(P, q) == IdentsBy(P, q.addr, q.cid)
 
-\* What is written / reported for the client address under configuration c.
+\* What is written for the client address of a query recorded under
+\* configuration c (anonymisation may be switched at run time; what counts is
+\* the setting in force when the record is made).
 StoredAddr(c, q) == IF c.anon THEN Anon(q.addr) ELSE q.addr
 
 \* ----------------------------------------------- the statement's decisions
@@ -86,40 +88,46 @@ IgnoredClientS(c, q) == c.flagS /\ Idents(c.client, q)
 ShouldLog(c, q)   == ~IgnoredClientQ(c, q) /\ ~IgnoreMatch(c.ignQ, q.name)
 ShouldCount(c, q) == ~IgnoredClientS(c, q) /\ ~IgnoreMatch(c.ignS, q.name)
 
-\* The anonymised address no longer identifies the (ignored) sender ...
-LostByAnon(c, q)  == c.anon /\ Idents(c.client, q) /\ ~IdentsBy(c.client, Anon(q.addr), q.cid)
+\* sa = the address as stored.  It no longer identifies the sender as client P ...
+Lost(P, q, sa) == Idents(P, q) /\ ~IdentsBy(P, sa, q.cid)
 \* ... or identifies a client the sender is not.  The statement forbids
 \* recording ignored clients; it does not demand that everybody else IS
 \* recorded, so over-blocking is admissible ("any").
-Collateral(c, q)  == c.anon /\ ~Idents(c.client, q) /\ IdentsBy(c.client, Anon(q.addr), q.cid)
+Coll(P, q, sa) == ~Idents(P, q) /\ IdentsBy(P, sa, q.cid)
+
+LostByAnon(c, q) == Lost(c.client, q, StoredAddr(c, q))
 
 \* Why a query must not be recorded / returned: N = name on the list,
 \* C = client marked, A = client marked and only identifiable by the address
-\* bits anonymisation removes.
-Reasons(ign, flag, c, q) ==
+\* bits that are not in the stored address.
+Reasons(ign, flag, P, q, sa) ==
     (IF IgnoreMatch(ign, q.name) THEN "N" ELSE "")
-      \o (IF flag /\ Idents(c.client, q)
-          THEN (IF LostByAnon(c, q) THEN "A" ELSE "C") ELSE "")
+      \o (IF flag /\ Idents(P, q) THEN (IF Lost(P, q, sa) THEN "A" ELSE "C") ELSE "")
 
 \* Verdicts: "no:<stage>:<reasons>" must be absent; "yes" expected present;
-\* "any" both admissible (refused ANY queries, over-blocking).
-RecVerdict(ign, flag, c, q) ==
-    LET r == Reasons(ign, flag, c, q) IN
+\* "any" both admissible: the store is switched off (the statement does not
+\* say a disabled log records nothing -- only that ignored things are never
+\* recorded), refused ANY queries, over-blocking.
+RecVerdict(ign, flag, on, c, q) ==
+    LET sa == StoredAddr(c, q)
+        r  == Reasons(ign, flag, c.client, q, sa) IN
     IF r # "" THEN "no:R:" \o r
-    ELSE IF (q.qt = "ANY" /\ c.refuseAny) \/ (flag /\ Collateral(c, q)) THEN "any"
+    ELSE IF ~on \/ (q.qt = "ANY" /\ c.refuseAny) \/ (flag /\ Coll(c.client, q, sa)) THEN "any"
     ELSE "yes"
 
-LogVerdict(c, q)   == RecVerdict(c.ignQ, c.flagQ, c, q)
-CountVerdict(c, q) == RecVerdict(c.ignS, c.flagS, c, q)
+LogVerdict(c, q)   == RecVerdict(c.ignQ, c.flagQ, c.qlogOn, c, q)
+CountVerdict(c, q) == RecVerdict(c.ignS, c.flagS, c.statsOn, c, q)
 
 \* An entry recorded under configuration rec, looked at through the log API
-\* under the current configuration cur.
+\* under the current configuration cur.  It can only be re-identified by what
+\* was stored under rec.
 ApiVerdict(rec, cur, q) ==
-    LET r == LogVerdict(rec, q)
-        s == Reasons(cur.ignQ, cur.flagQ, cur, q) IN
+    LET sa == StoredAddr(rec, q)
+        r  == LogVerdict(rec, q)
+        s  == Reasons(cur.ignQ, cur.flagQ, cur.client, q, sa) IN
     IF r \notin {"yes", "any"} THEN r
     ELSE IF s # "" THEN "no:S:" \o s
-    ELSE IF r = "any" \/ (cur.flagQ /\ Collateral(cur, q)) THEN "any"
+    ELSE IF r = "any" \/ (cur.flagQ /\ Coll(cur.client, q, sa)) THEN "any"
     ELSE "yes"
 
 IsNo(v) == v \notin {"yes", "any"}
